@@ -10,6 +10,8 @@ open Proto Eval
     `f <hex>`      the same with the float operator table / function names
     `t <hex>`      value pass: the parse tree (variables substituted by the fixed literal resolver) in prefix form
     `a <hex>`      NextArg -> `<hex> <hex>`
+    `d s` / `d f`  the two stacks the reused evaluator holds after the calls so far (`Eval.St`: after an accepted call the
+                   reduced stacks, after a rejected parse `Eval.leftoverOn`) -> `D <operands, top first> | <operators>`
     `x <k> <z> <hex>`  value pass of the FIXED evaluator, computed by the model (`Model/EvalFixed.lean`): configuration
                    `fixed.Dk`, divideByZeroReturnsZero = z, variables from the literal table ->
                    `n <raw>` | `b true` | `b false` | `s <hex>` | `err` | `opaque` (depends on float64 arithmetic)
@@ -74,20 +76,36 @@ def showNode : Node → String
   | .func un name args => "F " ++ optSym un ++ " " ++ bytesHex name ++ " " ++ bytesHex args
   | .tree l r op un => "T " ++ optSym op ++ " " ++ optSym un ++ " " ++ showNode l ++ " " ++ showNode r
 
+/-- a node of the operand stack as the white-box dump of the harness prints it (a call has no name there: Go keeps
+    the function value) -/
+def showNodeD : Node → String
+  | .nil => "N"
+  | .operand un v => "O " ++ optSym un ++ " " ++ bytesHex v
+  | .func un _ args => "F " ++ optSym un ++ " " ++ bytesHex args
+  | .tree l r op un => "T " ++ optSym op ++ " " ++ optSym un ++ " " ++ showNodeD l ++ " " ++ showNodeD r
+
+/-- the two stacks, top first -/
+def showSt (st : St) : String :=
+  "D " ++ " ; ".intercalate (st.opds.map showNodeD) ++ " | " ++
+    " ; ".intercalate (st.ops.map fun e => bytesHex e.op.sym ++ " " ++ optSym e.un)
+
 def showR : R Bytes → String
   | .ok v => "ok " ++ bytesHex v
   | .err => "err"
   | .panic => "panic"
 
-def step (st : St) (line : String) : St × String :=
+/-- the driver keeps the state of the TWO reused evaluators of the harness (fixed table, float table) -/
+abbrev DSt := St × St
+
+def step (st : DSt) (line : String) : DSt × String :=
   match words line with
   | ["s", h] =>
     match hexBytes? h with
-    | some s => let (st', r) := evaluateReuse fixedOps fixedFns (some structResolve) st s; (st', showR r)
+    | some s => let (st', r) := evaluateReuse fixedOps fixedFns (some structResolve) st.1 s; ((st', st.2), showR r)
     | none => (st, "bad-op")
   | ["f", h] =>
     match hexBytes? h with
-    | some s => let (st', r) := evaluateReuse floatOps floatFns (some structResolve) st s; (st', showR r)
+    | some s => let (st', r) := evaluateReuse floatOps floatFns (some structResolve) st.2 s; ((st.1, st'), showR r)
     | none => (st, "bad-op")
   | ["t", h] =>
     match hexBytes? h with
@@ -128,7 +146,9 @@ def step (st : St) (line : String) : St × String :=
         | .panic => "panic"
         | .outside => "opaque")
     | _, _ => (st, "bad-op")
-  | ["reset"] => ({}, "reset")
+  | ["d", "s"] => (st, showSt st.1)
+  | ["d", "f"] => (st, showSt st.2)
+  | ["reset"] => (({}, {}), "reset")
   | _ => (st, "bad-op")
 
-def main : IO Unit := Proto.run step {}
+def main : IO Unit := Proto.run step ({}, {})
